@@ -553,17 +553,19 @@ def _alarm(sig, frm):
 HANG_S = 2.0
 
 
-def _run(fn, ctx):
+def _run(fn, ctx, limit=None):
     """(outcome json, live result)"""
     from utype.utils.exceptions import ParseError
     signal.signal(signal.SIGALRM, _alarm)
-    signal.setitimer(signal.ITIMER_REAL, HANG_S)
+    signal.setitimer(signal.ITIMER_REAL, limit or HANG_S)
     try:
         try:
             r = fn()
         finally:
             signal.setitimer(signal.ITIMER_REAL, 0)
     except _Hang:
+        if limit is None:
+            return _run(fn, ctx, limit=5 * HANG_S)      # a loaded machine is not a hang: once more, with a longer timer
         return {"hang": True}, None
     except ParseError as e:
         return {"fail": type(e).__name__}, None
@@ -1031,12 +1033,18 @@ def E(v):
     return c12.enc(v, None)
 
 
+_NO_MIXIN = [0]          # > 0 while generating the conditions of a conjunction
+PLAIN_ENUMS = [k for k, e in enumerate(ENUMS) if e.get("mt") is None]
+
+
 def leaf(rng, hashable=False, subs=True):
     names = HASHABLE_LEAVES if hashable else (SCALARS if rng.random() < 0.85 else CONTAINERS)
     b = rng.choice(names)
     r = rng.random()
     if not hashable and r < 0.08:
-        return {"enum": rng.randrange(len(ENUMS))}
+        # `&` feeds the value one condition produced into the next one: a member of a mixed-in enum would then be the
+        # *input* of another converter, which Conv.lean only models at top level (`modelledInput`)
+        return {"enum": rng.choice(PLAIN_ENUMS) if _NO_MIXIN[0] else rng.randrange(len(ENUMS))}
     if not hashable and r < 0.10:
         return {"obj": rng.randrange(2)}
     d = {"t": b}
@@ -1160,6 +1168,14 @@ def gen_type(rng, depth=0, hashable=False, ndatas=0, typing_ok=True, allow_data=
     if r < 0.72:
         kind = rng.choice(["list", "list", "set", "frozenset", "deque", "tuple", "vtuple", "dict"])
         d = {"gen": kind, "style": style}
+        cons = None
+        if style == "rule" and rng.random() < 0.4:
+            cons = gen_cons(rng, GEN_BASE[kind])
+            # observed: `Rule.annotate` builds the types of typing generics nested in the arguments of a constrained Rule
+            # subclass as subclasses of it, so they inherit its constraints (`R[Tuple[int, ...]]` with R.max_length = Lax(2)
+            # truncates the inner tuples too).  Declaration processing is not this property's business: spell nested
+            # generics as Rule subclasses of their own under a constrained one.
+            typing_ok = False
         if kind == "dict":
             d["args"] = [gen_type(rng, depth + 1, True, ndatas, typing_ok, False)]
             if style == "typing" or rng.random() < 0.85:
@@ -1173,8 +1189,8 @@ def gen_type(rng, depth=0, hashable=False, ndatas=0, typing_ok=True, allow_data=
         else:
             d["args"] = [gen_type(rng, depth + 1, False, ndatas, typing_ok, allow_data)]
         if style == "rule":
-            if rng.random() < 0.4:
-                d["cons"] = gen_cons(rng, GEN_BASE[kind])
+            if cons:
+                d["cons"] = cons
             if rng.random() < 0.1 and kind in ("list", "set", "dict", "tuple"):
                 d["sub"] = 1
         return d
@@ -1184,14 +1200,18 @@ def gen_type(rng, depth=0, hashable=False, ndatas=0, typing_ok=True, allow_data=
         op = rng.choice(["|", "|", "^", "&", "&"])
         n = rng.randint(2, 3)
         if op == "&":
-            first = gen_type(rng, depth + 1, False, 0, typing_ok, False)
-            args = [first]
-            for _ in range(n - 1):
-                k = rng.random()
-                if k < 0.5:
-                    args.append({"comb": "~", "args": [gen_type(rng, depth + 2, False, 0, typing_ok, False)], "style": "op"})
-                else:
-                    args.append(gen_type(rng, depth + 1, False, 0, typing_ok, False))
+            _NO_MIXIN[0] += 1
+            try:
+                first = gen_type(rng, depth + 1, False, 0, typing_ok, False)
+                args = [first]
+                for _ in range(n - 1):
+                    k = rng.random()
+                    if k < 0.5:
+                        args.append({"comb": "~", "args": [gen_type(rng, depth + 2, False, 0, typing_ok, False)], "style": "op"})
+                    else:
+                        args.append(gen_type(rng, depth + 1, False, 0, typing_ok, False))
+            finally:
+                _NO_MIXIN[0] -= 1
             args = _dedup_args(args)
             if len(args) < 2:
                 return args[0]
